@@ -19,7 +19,7 @@ ID = "C01"
 LEVEL = "exploration"
 TECHNIQUE = "deterministic simulation of the full stack (drivers, router, real TCP server, real two-connection client, snooping clients) over seeded histories x fragmentations x latencies; mirror compared with driver truth at quiescence"
 RULE = ("scenario = generated driver definitions (inheritance depth<=3, all vector kinds/rules/formats, enabled flags) x history of "
-        "driver-side and client-side operations with virtual gaps x network knobs (fragmentation mode, latency profile incl. "
+        "driver-side and client-side operations (incl. values that compare equal but render differently: signed zeros) with virtual gaps x network knobs (fragmentation mode, latency profile incl. "
         "per-connection skew, high-water mark); distinct = different signature (op kinds used, vector kinds, net knobs, depth, "
         "#clients, snoop); non-trivial = at least one settle point after at least one state-changing operation with a started client")
 COMPONENTS = {
@@ -72,6 +72,16 @@ def gen_steps(rng, specs, nclients, n, client_ops=True, late_start=False, snoope
             continue
         if r < 0.28:
             d, v, e = rng.choice(els)
+            if v["kind"] == "Number" and rng.random() < 0.25:
+                # two values that compare equal and render differently (signed zeros), one after the other:
+                # the second assignment changes what clients must show although `old == new`
+                a, b = rng.choice([(0.0, -0.0), (-0.0, 0.0)])
+                for val in (a, b):
+                    if client_ops and v["perm"] != "ro" and e["enabled"] and rng.random() < 0.3:
+                        steps.append({"op": "c_write", "c": rng.randrange(4), "dev": d, "vec": v["name"], "els": [[e["name"], repr(val)]]})
+                    else:
+                        steps.append({"op": rng.choice(["d_assign", "d_set_value"]), "dev": d, "vec": v["name"], "el": e["name"], "value": val})
+                continue
             steps.append({"op": rng.choice(["d_assign", "d_assign", "d_set_value"]), "dev": d, "vec": v["name"], "el": e["name"],
                           "value": V.driver_value(rng, v["kind"], e)})
         elif r < 0.34:
